@@ -47,7 +47,8 @@ EndMatches(k) == Is(k, "LoadEnd") /\ Matches(Ev(k), hist'[Len(hist')])
 
 Silent ==
   /\ \/ CheckParams /\ ~Finished
-     \/ CacheStep \/ NestedCache \/ SkipOpen \/ Parse \/ Register \/ ImportNext \/ ImportGlobHits \/ ImportGlobPick \/ ImportsDone
+     \/ (CacheStep /\ ~Finished)
+     \/ NestedCache \/ SkipOpen \/ Parse \/ Register \/ ImportNext \/ ImportGlobHits \/ ImportGlobPick \/ ImportsDone
      \/ Resolve \/ ObjProcsDone
      \/ \E m \in DOMAIN models : ObjProcs(m) /\ models[m].defs = <<>>
   /\ l' = l
@@ -55,6 +56,8 @@ Silent ==
 Observed ==
   \/ /\ Is(l + 1, "LoadBegin") /\ StartLoad /\ Op.file = Ev(l + 1).file /\ l' = l + 1
   \/ /\ Is(l + 1, "Repair") /\ Repair /\ l' = l + 1
+  \/ /\ Is(l + 1, "Declare") /\ Declare /\ l' = l + 1
+  \/ /\ CacheStep /\ Finished /\ EndMatches(l + 1) /\ l' = l + 1
   \/ /\ Is(l + 1, "Open") /\ OpenFile(Ev(l + 1).file) /\ l' = l + 1
   \/ /\ Is(l + 1, "ModelProc") /\ NestedMP /\ Top.file = Ev(l + 1).file /\ l' = l + 1
   \/ /\ Is(l + 1, "ObjProc") /\ l' = l + 1
